@@ -18,8 +18,9 @@ Log == TLCGet(7)
 VARIABLES l,       \* next line
           cur,     \* the run operation in flight: <<first, last, min>> (for the callback ranges)
           fresh,   \* workers that have not yet done their first (unobservable) stop-flag load
-          dead     \* the rest of the segment is not examined (inconclusive run)
-tvars == <<vars, l, cur, fresh, dead>>
+          dead,    \* the rest of the segment is not examined (inconclusive run)
+          cbseen   \* blocks whose callback has been logged during the run operation in flight
+tvars == <<vars, l, cur, fresh, dead, cbseen>>
 
 \* site numbers (utils/verif_hooks.hpp)
 c_spawn == 1  c_store == 2  c_load == 3  c_spin_pause == 5  c_prelock == 6  c_locked == 7  c_notify == 8
@@ -31,18 +32,18 @@ E == Log[l]
 IsEv(e) == l <= Len(Log) /\ ~dead /\ E.e = e
 IsG(t, s) == IsEv("g") /\ E.t = t /\ E.s = s
 Adv == l' = l + 1
-KeepT == UNCHANGED <<cur, fresh, dead>>
+KeepT == UNCHANGED <<cur, fresh, dead, cbseen>>
 Stutter == UNCHANGED vars
 
 TReset == /\ l <= Len(Log) /\ Log[l].e = "Reset"
-          /\ ResetTo(<<>>, 1) /\ cur' = <<0, 0, 0>> /\ fresh' = {} /\ dead' = FALSE /\ Adv
+          /\ ResetTo(<<>>, 1) /\ cur' = <<0, 0, 0>> /\ fresh' = {} /\ dead' = FALSE /\ cbseen' = {} /\ Adv
 TNew == /\ IsEv("PoolNew") /\ cpc = "idle" /\ prog = <<>>
         /\ prog' = E.prog \o << <<"stop">> >> /\ size' = E.size
         /\ UNCHANGED <<cpc, cstack, ci, started, paused, stopped, hasJob, hjVer, jobsKind, jobNonNull, jobVer,
                        pcount, mutex, cvWait, wpc, nthreads, seenVer, resVer, callerSeen, execCount, race, dup>>
         /\ KeepT /\ Adv
-TInconclusive == IsEv("Inconclusive") /\ dead' = TRUE /\ UNCHANGED <<vars, cur, fresh>> /\ Adv
-TSkipDead == l <= Len(Log) /\ dead /\ Log[l].e # "Reset" /\ UNCHANGED <<vars, cur, fresh, dead>> /\ Adv
+TInconclusive == IsEv("Inconclusive") /\ dead' = TRUE /\ UNCHANGED <<vars, cur, fresh, cbseen>> /\ Adv
+TSkipDead == l <= Len(Log) /\ dead /\ Log[l].e # "Reset" /\ UNCHANGED <<vars, cur, fresh, dead, cbseen>> /\ Adv
 TNote == IsEv("note") /\ Stutter /\ KeepT /\ Adv
 
 \* ---- caller program structure
@@ -50,6 +51,7 @@ TOp == /\ IsEv("op") /\ cpc = "idle" /\ prog # <<>>
        /\ IF E.op[1] = "destroy" THEN Head(prog)[1] = "stop" /\ Len(prog) = 1 ELSE Head(prog) = E.op
        /\ Idle
        /\ cur' = IF E.op[1] = "run" THEN <<E.op[2], E.op[3], E.op[4]>> ELSE cur
+       /\ cbseen' = IF E.op[1] = "run" THEN {} ELSE cbseen
        /\ UNCHANGED <<fresh, dead>> /\ Adv
 \* the call has returned: the model must be back at "idle" (e.g. every callback finished and seen)
 TRet == IsEv("ret") /\ cpc = "idle" /\ Stutter /\ KeepT /\ Adv
@@ -57,7 +59,7 @@ TRet == IsEv("ret") /\ cpc = "idle" /\ Stutter /\ KeepT /\ Adv
 \* ---- caller steps at schedule points
 TCaller ==
   \/ IsG(0, c_publish) /\ cpc = "B0" /\ ci = E.i /\ ci > 0 /\ B0 /\ KeepT /\ Adv
-  \/ IsG(0, c_spawn) /\ ci = E.i + 1 /\ T0sSpawn /\ fresh' = fresh \cup {E.i + 1} /\ UNCHANGED <<cur, dead>> /\ Adv
+  \/ IsG(0, c_spawn) /\ ci = E.i + 1 /\ T0sSpawn /\ fresh' = fresh \cup {E.i + 1} /\ UNCHANGED <<cur, dead, cbseen>> /\ Adv
   \/ IsG(0, c_store) /\ ci = E.i + 1 /\ T2Store /\ KeepT /\ Adv
   \/ IsG(0, c_load) /\ ci = E.i + 1 /\ WlLoad /\ KeepT /\ Adv
   \/ IsG(0, c_spin_pause) /\ cpc = "P3" /\ Stutter /\ KeepT /\ Adv
@@ -68,7 +70,7 @@ TCaller ==
   \/ IsG(0, c_notify) /\ R1 /\ KeepT /\ Adv
   \/ IsG(0, c_stopflag) /\ cpc = "S0" /\ ~stopped /\ S0 /\ KeepT /\ Adv
   \/ IsG(0, c_join) /\ cpc = "S2" /\ ci = E.i + 1 /\ Stutter /\ KeepT /\ Adv
-  \/ IsG(0, c_reinit) /\ Z1 /\ fresh' = {} /\ UNCHANGED <<cur, dead>> /\ Adv
+  \/ IsG(0, c_reinit) /\ Z1 /\ fresh' = {} /\ UNCHANGED <<cur, dead, cbseen>> /\ Adv
   \/ IsG(0, c_return) /\ B2 /\ KeepT /\ Adv
 
 \* ---- worker steps at schedule points (thread t = worker index + 1)
@@ -95,21 +97,23 @@ TCallback ==
      /\ E.r < b.nb /\ E.r < size
      /\ E.a = BStart(b, E.r) /\ E.b = BEnd(b, E.r)
      /\ wpc[E.r + 1] = "L3" /\ execCount[E.r + 1] = 1
-  /\ Stutter /\ KeepT /\ Adv
+  /\ E.r \notin cbseen /\ cbseen' = cbseen \cup {E.r}
+  /\ Stutter /\ UNCHANGED <<cur, fresh, dead>> /\ Adv
 TRan == /\ IsEv("ran")
+        /\ cbseen = 0..(NumBlocks(cur[1], cur[2], size, cur[3]) - 1)
         /\ \A k \in DOMAIN E.out : E.out[k] = (IF k - 1 >= cur[1] /\ k - 1 < cur[2] THEN 1 ELSE 0)
         /\ Stutter /\ KeepT /\ Adv
 
 \* ---- silent steps (no shared-state access between two schedule points, or unobservable)
 B0Empty == cpc = "B0" /\ ci = 0 /\ B0
 P3Exit == cpc = "P3" /\ pcount = size /\ P3
-FirstL0 == \E i \in fresh : L0(i) /\ fresh' = fresh \ {i} /\ UNCHANGED <<l, cur, dead>>
+FirstL0 == \E i \in fresh : L0(i) /\ fresh' = fresh \ {i} /\ UNCHANGED <<l, cur, dead, cbseen>>
 SilentCaller == (R0 \/ R2 \/ RET \/ W0 \/ WlDone \/ T0 \/ T0sDone \/ T1 \/ T2i \/ T2Done \/ T2Skip \/ P0 \/ P2 \/ P3Exit
                  \/ B0Empty \/ B1 \/ S1 \/ S2i \/ S2Done \/ S2Join \/ Z0
                  \/ (cpc = "S0" /\ stopped /\ S0))
-                /\ UNCHANGED <<l, cur, fresh, dead>>
+                /\ UNCHANGED <<l, cur, fresh, dead, cbseen>>
 
-TraceInit == InitWith(<<>>, 1) /\ l = 1 /\ cur = <<0, 0, 0>> /\ fresh = {} /\ dead = FALSE
+TraceInit == InitWith(<<>>, 1) /\ l = 1 /\ cur = <<0, 0, 0>> /\ fresh = {} /\ dead = FALSE /\ cbseen = {}
 TraceNext == TReset \/ TNew \/ TInconclusive \/ TSkipDead \/ TNote \/ TOp \/ TRet \/ TCaller \/ TWorker
              \/ TCallback \/ TRan \/ SilentCaller \/ FirstL0
 TraceSpec == TraceInit /\ [][TraceNext]_tvars
